@@ -1528,6 +1528,7 @@ impl Transaction {
         commit_handler: &dyn CommitHandler,
         base_path: &Path,
         version: u64,
+        latest_manifest: &Manifest,
         config: &ManifestWriteConfig,
         tx_path: &str,
     ) -> Result<(Manifest, Vec<IndexMetadata>)> {
@@ -1535,6 +1536,10 @@ impl Transaction {
             .resolve_version_location(base_path, version, &object_store.inner)
             .await?;
         let mut manifest = read_manifest(object_store, &location.path, location.size).await?;
+        // Row ids and fragment ids handed out after the restored version stay used by the
+        // versions in between: keep the high-water marks of the latest manifest.
+        manifest.next_row_id = manifest.next_row_id.max(latest_manifest.next_row_id);
+        manifest.max_fragment_id = manifest.max_fragment_id.max(latest_manifest.max_fragment_id);
         manifest.set_timestamp(timestamp_to_nanos(config.timestamp));
         manifest.transaction_file = Some(tx_path.to_string());
         let indices = read_manifest_indexes(object_store, &location, &manifest).await?;
